@@ -64,6 +64,9 @@ static int get_num(char *token)
     if (*token < '0' || *token > '9') { return -1; }
     num = (num * 10) + (*token - '0');
 
+    // Register numbers are small (and more digits would wrap).
+    if (num > 255) { return -1; }
+
     token++;
   }
 
@@ -153,6 +156,8 @@ static int get_register_bank_sh4(char *token)
     num = (num * 10)  + (*token - '0');
     count++;
     token++;
+
+    if (num > 7) { return -1; }
   }
 
   if (count == 0 || num > 7) { return -1; }
